@@ -42,19 +42,20 @@ type Ctx struct {
 	states  int64
 	trans   int64
 
-	mu        sync.Mutex
-	samples   []interface{}
-	tagCount  map[string]int64
-	sampleCap int
-	viol      map[string]*Violation // by signature (first witness kept)
-	violCount map[string]int
-	extra     map[string]interface{}
-	assume    []string
-	rule      string
-	exhaust   bool
-	cut       []string
-	known     []knownEntry
-	flaky     []string
+	mu         sync.Mutex
+	samples    []interface{}
+	tagCount   map[string]int64
+	sampleCap  int
+	viol       map[string]*Violation // by signature (first witness kept)
+	violCount  map[string]int
+	extra      map[string]interface{}
+	assume     []string
+	rule       string
+	exhaust    bool
+	cut        []string
+	known      []knownEntry
+	flaky      []string
+	flakyCount map[string]int
 }
 
 type knownEntry struct {
@@ -238,12 +239,24 @@ func (c *Ctx) Violate(v Violation, recheck func() string) {
 			// Not reproduced at all: this happens when the code under test carries state from one execution to the
 			// next (a package-level cache, a shared buffer). The candidate is kept aside: it is never reported as a
 			// VIOLATION by itself; if the run ends with nothing reproducible, the run is a harness error (exit 2).
+			// Exception: the SAME signature observed on three or more different witnesses, each of which then
+			// behaved correctly five times, is not a fluke of one execution but behaviour that depends on timing or on
+			// state left behind (a result still being written after the call returned, say). From the third
+			// independent observation on it is reported, marked as such.
 			c.mu.Lock()
 			if len(c.flaky) < 20 {
 				c.flaky = append(c.flaky, fmt.Sprintf("sig=%s msg=%q re-executions observed sig=%q", v.Sig, v.Msg, last))
 			}
+			if c.flakyCount == nil {
+				c.flakyCount = map[string]int{}
+			}
+			c.flakyCount[v.Sig]++
+			n := c.flakyCount[v.Sig]
 			c.mu.Unlock()
-			return
+			if n < 3 {
+				return
+			}
+			v.Msg += fmt.Sprintf("  [not reproduced in 5 immediate re-executions, but observed independently on %d different witnesses: timing- or history-dependent]", n)
 		}
 	}
 	c.mu.Lock()
